@@ -37,7 +37,8 @@ def _corpus(tier):
     files = sorted(glob.glob(os.path.join(repo, "features", "steps", "test_files", "*.pptx")))
     if tier == "quick":
         keep = ("test.pptx", "cht-datalabels.pptx", "cht-axis-props.pptx", "cht-point-props.pptx", "cht-legend-props.pptx", "tbl-cell.pptx", "txt-font-props.pptx",
-                "shp-shapes.pptx", "shp-picture.pptx", "sld-notes.pptx", "dml-fill.pptx", "dml-line.pptx", "ph-populated-placeholders.pptx", "shp-groupshape.pptx")
+                "shp-shapes.pptx", "shp-picture.pptx", "sld-notes.pptx", "dml-fill.pptx", "dml-line.pptx", "ph-populated-placeholders.pptx", "shp-groupshape.pptx",
+                "prs-slide-masters.pptx")
         files = [f for f in files if os.path.basename(f) in keep]
     return files
 
@@ -141,6 +142,23 @@ def _accessors(t):
             continue
         d = inspect.getattr_static(t, name, None)
         if isinstance(d, (property, lazyproperty)):
+            out.append(name)
+    return out
+
+
+_LOOKUP_NAME = re.compile(r"^(__getitem__|__contains__|__eq__|__ne__|index|get|count|(iter|is|has|find|get_by|part_related_by|related_part|target_ref)[a-z_]*)$") if (re := __import__("re")) else None
+
+
+def _lookup_methods(t):
+    """methods that only look something up, by their name: positional lookups, membership, searches, predicates"""
+    import types
+
+    out = []
+    for name in dir(t):
+        if not _LOOKUP_NAME.match(name):
+            continue
+        d = inspect.getattr_static(t, name, None)
+        if isinstance(d, types.FunctionType) and (d.__module__ or "").startswith("pptx"):
             out.append(name)
     return out
 
@@ -358,11 +376,12 @@ def _static_frames(tier="quick", seed=0):
     # the class that defines it: the clause fails if it fails for any of them
     agg = {}
     for (modname, cname), cls in sorted(_proxy_classes().items()):
-        for name in _accessors(cls) + [n for n in ("__getitem__",) if inspect.getattr_static(cls, n, None) is not None and isinstance(inspect.getattr_static(cls, n, None), __import__("types").FunctionType)]:
+        lookups = set(_lookup_methods(cls))
+        for name in _accessors(cls) + sorted(lookups - set(_accessors(cls))):
             owner = next((k for k in cls.__mro__ if name in k.__dict__), None)
             if owner is None or not (owner.__module__ or "").startswith("pptx"):
                 continue
-            eff, why = ana.member_effect(cls, name, "call" if name.startswith("__") else "get")
+            eff, why = ana.member_effect(cls, name, "call" if name.startswith("__") or name in lookups else "get")
             counts[eff] += 1
             key = (owner.__module__.replace("pptx.", ""), owner.__name__, name)
             functions["%s:%s.%s" % (owner.__module__, owner.__name__, name)] = 1
@@ -641,6 +660,58 @@ def _native_traversal(tier="quick", seed=0):
                              "replay": {"confirmed": True, "witness_class": "accessor-mutates",
                                         "detail": "%s: during a read-only traversal, reading %s.%s made a non-empty change in %s" % (dname, wc, wn, diff[:3] or "relationships"),
                                         "input": [dname, owner, wn]}})
+    # pass 4: look-up methods (index, get, get_by_name, membership, positional access) with members of the collection, with members
+    # of OTHER collections of the same kind (foreign arguments), with positions and names that do not exist
+    bad4 = None
+    for dname, data in srcs:
+        ref2 = Presentation(io.BytesIO(data))
+        _ = ref2.slides
+        b3 = io.BytesIO()
+        ref2.save(b3)
+        want = _fingerprint(Presentation(io.BytesIO(b3.getvalue())))
+        prs = Presentation(io.BytesIO(data))
+        _ = prs.slides
+        objs = []
+        _walk(prs, lambda o, n: (objs.append(o), getattr(o, n))[1], skip=skip | known_mut, budget=1500)
+        seen_ids, colls = set(), {}
+        for o in objs:
+            if id(o) in seen_ids:
+                continue
+            seen_ids.add(id(o))
+            if _lookup_methods(type(o)) and hasattr(type(o), "__iter__"):
+                colls.setdefault(type(o), []).append(o)
+        for cls, group in colls.items():
+            members = {}
+            for c_ in group[:6]:
+                try:
+                    members[id(c_)] = list(c_)[:8]
+                except Exception:
+                    members[id(c_)] = []
+            for c_ in group[:6]:
+                own = members[id(c_)]
+                foreign = [m for g in group[:6] if g is not c_ for m in members[id(g)][:3]]
+                for meth in _lookup_methods(cls):
+                    f = getattr(c_, meth, None)
+                    if f is None or meth in ("__eq__", "__ne__"):
+                        continue
+                    for arg in own[:4] + foreign[:4] + [0, 1, -1, 10 ** 6, 255, 256, "x", "Title 1", None]:
+                        evals += 1
+                        try:
+                            f(arg)
+                        except Exception:
+                            pass
+        b1 = io.BytesIO()
+        prs.save(b1)
+        got = _fingerprint(Presentation(io.BytesIO(b1.getvalue())))
+        if got != want:
+            diff = [k for k in want[0] if got[0].get(k) != want[0][k]] + [k for k in got[0] if k not in want[0]]
+            bad4 = bad4 or "%s: after calling the look-up methods (index / get / get_by_name / in / []) of its collections with own, foreign and absent arguments the saved deck differs in %s" % (dname, diff[:4] or "relationships")
+    rec4 = {"name": "C12.native.lookup_methods_do_not_change_the_deck", "base": "C12.native.lookup_methods_do_not_change_the_deck", "kind": "bounded", "backend": "native", "time": 0, "path": 0,
+            "status": "refuted" if bad4 else "discharged"}
+    if bad4:
+        rec4["replay"] = {"confirmed": True, "witness_class": "lookup-changes-deck", "detail": bad4}
+        rec4["model"] = None
+    obls.append(rec4)
     rec = {"name": "C12.native.traverse_save_traverse_save", "base": "C12.native.traverse_save_traverse_save", "kind": "bounded", "backend": "native", "time": 0, "path": 0,
            "status": "refuted" if bad else "discharged"}
     if bad:
